@@ -30,6 +30,8 @@ type el struct{ a, b *big.Int }
 
 type fieldRef struct{ p *big.Int }
 
+func (f fieldRef) red(a *big.Int) *big.Int { return a.Mod(a, f.p) }
+
 func (f fieldRef) mk(a, b *big.Int) el {
 	return el{new(big.Int).Mod(a, f.p), new(big.Int).Mod(b, f.p)}
 }
@@ -38,6 +40,9 @@ func (f fieldRef) add(x, y el) el     { return f.mk(new(big.Int).Add(x.a, y.a), 
 func (f fieldRef) sub(x, y el) el     { return f.mk(new(big.Int).Sub(x.a, y.a), new(big.Int).Sub(x.b, y.b)) }
 func (f fieldRef) neg(x el) el        { return f.sub(f.fromInt(0), x) }
 func (f fieldRef) mul(x, y el) el {
+	if x.b.Sign() == 0 && y.b.Sign() == 0 { // both in the prime field
+		return el{f.red(new(big.Int).Mul(x.a, y.a)), new(big.Int)}
+	}
 	ac := new(big.Int).Mul(x.a, y.a)
 	bd := new(big.Int).Mul(x.b, y.b)
 	ad := new(big.Int).Mul(x.a, y.b)
@@ -51,6 +56,13 @@ func (f fieldRef) inRange(x el) bool { return x.a.Sign() >= 0 && x.a.Cmp(f.p) < 
 
 // inv: 1/(a+bi) = (a-bi)/(a²+b²); panics on zero (callers exclude it).
 func (f fieldRef) inv(x el) el {
+	if x.b.Sign() == 0 { // prime field
+		ai := new(big.Int).ModInverse(x.a, f.p)
+		if ai == nil {
+			panic("reference field: inverse of zero")
+		}
+		return el{ai, new(big.Int)}
+	}
 	n := new(big.Int).Mul(x.a, x.a)
 	n.Add(n, new(big.Int).Mul(x.b, x.b))
 	n.Mod(n, f.p)
